@@ -1,17 +1,19 @@
 #!/bin/bash
 # tools/seedtest.sh <seed dir with patch.diff, demo.py> <PROP> [extra ./check args]
-# applies the seeded change to /repo, runs the demo and the check, and always restores /repo.
+# applies the seeded change to the repository ($OPTILAND_REPO, default /repo), runs the demo and the check, and always restores it.
 set -u
 seed=$(readlink -f "$1"); prop=$2; shift 2
-cd /repo || exit 9
-if ! git diff --quiet; then echo "/repo has uncommitted changes"; exit 9; fi
+REPO=${OPTILAND_REPO:-/repo}
+tag=$(echo "$REPO" | tr '/' '_')
+cd "$REPO" || exit 9
+if ! git diff --quiet; then echo "$REPO has uncommitted changes"; exit 9; fi
 git apply --check "$seed/patch.diff" || { echo "PATCH DOES NOT APPLY"; exit 9; }
-PYTHONPATH=/repo /venv/bin/python "$seed/demo.py" >/tmp/seed_demo_clean.log 2>&1; echo "demo on clean tree: exit $?"
+PYTHONPATH=$REPO /venv/bin/python "$seed/demo.py" >/tmp/seed_demo_clean$tag.log 2>&1; echo "demo on clean tree: exit $?"
 git apply "$seed/patch.diff"
-trap 'git -C /repo checkout -- . ' EXIT
-PYTHONPATH=/repo /venv/bin/python "$seed/demo.py" >/tmp/seed_demo_mut.log 2>&1; echo "demo with change: exit $? ($(tail -1 /tmp/seed_demo_mut.log | cut -c1-200))"
-cd /verif && timeout 1200 ./check "$prop" --no-evidence "$@" > /tmp/seed_check.log 2>&1; rc=$?
-echo "check exit $rc; $(grep -c '^VIOLATION' /tmp/seed_check.log) VIOLATION lines; $(grep -c '^HARNESS-ERROR' /tmp/seed_check.log) harness errors"
-grep -A1 '^VIOLATION' /tmp/seed_check.log | grep -v '^--' | head -6 | cut -c1-260
-grep '^HARNESS-ERROR' /tmp/seed_check.log | head -3 | cut -c1-300
+trap 'git -C "$REPO" checkout -- . ' EXIT
+PYTHONPATH=$REPO /venv/bin/python "$seed/demo.py" >/tmp/seed_demo_mut$tag.log 2>&1; echo "demo with change: exit $? ($(tail -1 /tmp/seed_demo_mut$tag.log | cut -c1-200))"
+cd /verif && OPTILAND_REPO=$REPO timeout 1200 ./check "$prop" --no-evidence "$@" > /tmp/seed_check$tag.log 2>&1; rc=$?
+echo "check exit $rc; $(grep -c '^VIOLATION' /tmp/seed_check$tag.log) VIOLATION lines; $(grep -c '^HARNESS-ERROR' /tmp/seed_check$tag.log) harness errors"
+grep -A1 '^VIOLATION' /tmp/seed_check$tag.log | grep -v '^--' | head -6 | cut -c1-260
+grep '^HARNESS-ERROR' /tmp/seed_check$tag.log | head -3 | cut -c1-300
 exit 0
